@@ -18,6 +18,11 @@ A case:
   workers  max_workers of the pool given to piter_fn / piter / piter_multiplex (0 = default pool)
   fn       row-wise function, one of FNS; fail_on = input value on which it raises (or None)
   num_steps  early stop after that many delivered elements (None = run to the end)
+Round 8: input items may be any of lib_queue.FAULTS ('fail' = ValueError, 'fail:kbd' = KeyboardInterrupt, 'fail:exit',
+  'fail:genexit', 'fail:cancel': BaseExceptions that are not Exceptions); fail_cls = the class the row function raises on
+  fail_on; post = k: when the run has ended, the main thread calls next() k more times on the same iterator (observers after
+  the fact); intr = {'at': n}: the consumer is interrupted (KeyboardInterrupt) at the n-th scheduler decision at which it
+  sits at a yield point inside next() (harness/lib_interrupt.py) -- such runs are checked by the oracle only.
 Values are distinct ints < 500; `dup*` adds 500.
 """
 import logging
@@ -26,6 +31,7 @@ import random
 from harness.core import err_kind
 from harness.sched import shim
 from harness import lib_queue as lq
+from harness import lib_interrupt as li
 
 MAX_BATCH = 4096      # iter_utils._MAX_BATCH_SIZE (checked in run_real)
 
@@ -37,14 +43,19 @@ FNS = {
     'dup_odd': lambda x: [x, x + 500] if x % 2 == 1 else [],
 }
 MAP_FNS = ('ident', 'inc')     # usable with pmap (one output per input)
+INJECTED = []        # exception objects raised by sources / row functions of the current run (identity for the oracle)
 
 
 def row_fn(case):
   f, bad = FNS[case['fn']], case.get('fail_on')
 
+  cls = lq.FAULTS[case.get('fail_cls') or 'fail']
+
   def fn(x):
     if bad is not None and x == bad:
-      raise ValueError(f'fn failed on {x}')
+      e = cls(f'fn failed on {x}')
+      INJECTED.append(e)
+      raise e
     return f(x)
   return fn
 
@@ -75,8 +86,9 @@ class Source:
   """An input iterator; every `next` is a scheduler yield point labelled 'next'; records which managed thread
   pulled which value; ends with StopIteration(*rets)."""
 
-  def __init__(self, sched, items, rets, pulled):
+  def __init__(self, sched, items, rets, pulled, injected=None):
     self.s, self.items, self.rets, self.i, self.pulled = sched, list(items), list(rets), 0, pulled
+    self.injected = injected if injected is not None else []
 
   def __iter__(self):
     return self
@@ -87,8 +99,10 @@ class Source:
       raise StopIteration(*self.rets)
     it = self.items[self.i]
     self.i += 1
-    if it == 'fail':
-      raise ValueError(f'source failed at {self.i - 1}')
+    if lq.is_fail(it):
+      e = lq.FAULTS[it](f'source failed at {self.i - 1}')
+      self.injected.append(e)
+      raise e
     t = self.s.current()
     self.pulled.setdefault(t.tid if t is not None else -1, []).append(it)
     return it
@@ -166,21 +180,31 @@ def build(case, iter_utils, sources, pool_of):
   raise ValueError(api)
 
 
-def consume(case, it, mux, got):
-  """The user's loop. Returns the canonical end-of-iteration outcome."""
+def consume(case, it, mux, got, sched=None, injected=()):
+  """The user's loop. Returns the canonical end-of-iteration outcome (and, under 'cls', the real class)."""
   k = case.get('num_steps')
+  arm = sched is not None and case.get('intr') is not None
+
+  def nxt():
+    if arm:
+      sched.arm(sched.current().tid)
+    try:
+      return next(it)
+    finally:
+      if arm:
+        sched.disarm()
   try:
     if mux is not None and k is not None:
       for _ in range(k):
-        got.append(next(it))
+        got.append(nxt())
       mux.maybe_stop()            # early stop of a MultiplexIterator: queue stop + pool shutdown
       return {'raise': 'StopIteration', 'args': []}
     while True:
-      got.append(next(it))
-  except StopIteration as e:
-    return {'raise': 'StopIteration', 'args': list(e.args)}
-  except Exception as e:  # pylint: disable=broad-except
-    return {'raise': err_kind(e)}
+      got.append(nxt())
+  except BaseException as e:  # pylint: disable=broad-except
+    if isinstance(e, shim._Killed):
+      raise
+    return lq.exc_obs(e, injected)[0]
 
 
 def norm_label(l):
@@ -192,10 +216,17 @@ def run_real(case, max_steps=8000):
   assert iter_utils._MAX_BATCH_SIZE == MAX_BATCH
   logging.disable(logging.CRITICAL)
   enabled_rec = []
-  sched = shim.Scheduler(lq.make_chooser(case['sched'], enabled_rec), max_steps=max_steps)
+  del INJECTED[:]
+  intr = case.get('intr')
+  chooser = lq.make_chooser(case['sched'], enabled_rec)
+  if intr is not None:
+    sched = li.InterruptScheduler(li.interrupting_chooser(chooser, intr['at']), max_steps=max_steps, at=intr['at'])
+  else:
+    sched = shim.Scheduler(chooser, max_steps=max_steps)
   pulled, got, futs, pools, res = {}, [], [], [], {}
   err = None
-  with shim.patched(sched, [iter_utils]):
+  post = None
+  with (li.patched if intr is not None else shim.patched)(sched, [iter_utils]):
     fm = iter_utils.futures
     orig = fm.ThreadPoolExecutor
 
@@ -216,9 +247,10 @@ def run_real(case, max_steps=8000):
       return fm.ThreadPoolExecutor(max_workers=workers) if workers else fm.ThreadPoolExecutor()
 
     def consumer():
-      sources = [Source(sched, items, source_rets(case, i), pulled) for i, items in enumerate(case['inputs'])]
+      sources = [Source(sched, items, source_rets(case, i), pulled, INJECTED) for i, items in enumerate(case['inputs'])]
       it, mux, q = build(case, iter_utils, sources, pool_of)
-      res['end'] = consume(case, it, mux, got)
+      res['it'], res['mux'] = it, mux
+      res['end'] = consume(case, it, mux, got, sched, INJECTED)
       res['q'] = q
       if mux is None:
         for p in pools:
@@ -230,6 +262,19 @@ def run_real(case, max_steps=8000):
       outcome = sched.run()
     except shim.SchedulerError as e:
       outcome, err = 'schedule_rejected', str(e)
+    if outcome == 'done' and case.get('post') and res.get('it') is not None:
+      # observers after the fact: the (unmanaged) main thread calls next() again on the same iterator
+      post = []
+      for _ in range(case['post']):
+        try:
+          v = next(res['it'])
+          post.append(dict(value=v))
+        except shim.SchedulerError:
+          post.append(dict(end={'raise': 'would_block'}))
+          break
+        except BaseException as e:  # pylint: disable=broad-except
+          o, info = lq.exc_obs(e, INJECTED)
+          post.append(dict(end=o, exc=info))
   logging.disable(logging.NOTSET)
   if res.get('q') is not None:
     res['returned'] = list(res['q'].returned)      # read when every thread has stopped
@@ -241,13 +286,21 @@ def run_real(case, max_steps=8000):
     f = futs[i - 1] if i - 1 < len(futs) else None
     exc = f.exception(timeout=0) if (f is not None and f.done()) else None
     threads.append(dict(done=bool(t.done), received=[], pulled=[v for v in pulled.get(i, [])],
-                        outcome=None if exc is None else {'raise': err_kind(exc)}, early=False))
-  return dict(
+                        outcome=None if exc is None else lq.exc_obs(exc, INJECTED)[0], early=False))
+  obs = dict(
       outcome=outcome, err=err,
       choices=[[t, a] for t, a in sched.choices],
       trace=[[t, norm_label(l)] for t, l in sched.trace],
       enabled=enabled_rec, threads=threads, returned=res.get('returned'),
       blocked=[list(b) for b in sched.blocked], nthreads=len(sched.threads))
+  if INJECTED:
+    obs['fault_classes'] = sorted({type(e).__name__ for e in INJECTED})
+  end_exc = getattr(sched.threads[0], 'exc', None)
+  if intr is not None:
+    obs['intr'] = dict(fired=list(sched.fired) if sched.fired else None, offers=sched.offers)
+  if post is not None:
+    obs['post'] = post
+  return obs
 
 
 # ------------------------------------------------------------------ model side
@@ -255,7 +308,8 @@ def run_real(case, max_steps=8000):
 def model_request(case, choices):
   prods, batch_max, workers, stop_on_end, cap = shape(case)
   return dict(model='piter', cap=cap, batch_max=batch_max, max_workers=workers, stop_on_end=stop_on_end,
-              num_steps=case.get('num_steps'), inputs=case['inputs'], prods=prods, fn=case['fn'],
+              num_steps=case.get('num_steps'), inputs=[['fail' if lq.is_fail(v) else v for v in it] for it in case['inputs']],
+              prods=prods, fn=case['fn'],
               fail_on=case.get('fail_on'), want_enabled=True,
               schedule=[c[0] if c[1] is None else [c[0], c[1]] for c in choices])
 
@@ -263,6 +317,8 @@ def model_request(case, choices):
 def model_requests_obs(case, obs):
   if case['api'] in ('piter2', 'chain'):
     return []
+  if (obs.get('intr') or {}).get('fired'):
+    return []          # an interrupted run has no counterpart in Model/Piter.lean: oracle only
   return [model_request(case, obs['choices'])]
 
 
@@ -313,12 +369,12 @@ def sequential(case):
   outs, fails = [], False
   for items in case['inputs']:
     for v in items:
-      if v == 'fail':
+      if lq.is_fail(v):
         fails = True
         continue
       try:
         outs.extend(fn(v))
-      except ValueError:
+      except BaseException:  # pylint: disable=broad-except
         fails = True
   return sorted(outs), fails
 
@@ -375,12 +431,49 @@ def result_oracle(case, got, end, returned=None):
 def sched_oracle(case, obs):
   if obs['outcome'] != 'done':
     return (f"{obs['outcome']}: helper threads never finish / pool shutdown never returns; blocked {obs['blocked']} "
-            f"after {len(obs['choices'])} steps")
+            f"after {len(obs['choices'])} steps" + (f" (consumer interrupted at {obs['intr']['fired']})" if (obs.get('intr') or {}).get('fired') else ''))
   for i, t in enumerate(obs['threads']):
     if not t['done']:
       return f'thread {i} did not finish'
   t0 = obs['threads'][0]
-  return result_oracle(case, t0['received'], t0['outcome'], obs.get('returned'))
+  if case['api'] == 'multiplex' and case['par'] and not any(t == 0 and l == 'shutdown' for t, l in obs['trace']):
+    return (f'the iteration of the MultiplexIterator ended with {t0["outcome"]} but its thread pool was never shut down '
+            f'(fault classes {obs.get("fault_classes")})')
+  fired = (obs.get('intr') or {}).get('fired')
+  if fired:
+    # after ANY exception leaves the consumer no helper thread stays blocked and the pool is shut down (checked above);
+    # the interrupt is not swallowed, nothing is duplicated or invented
+    seq, _ = sequential(case)
+    if not sub_multiset(t0['received'], seq):
+      return f'delivered {_srt(t0["received"])} is not a sub-multiset of the sequential outputs {seq}'
+    if t0['outcome'] is None or t0['outcome']['raise'] == 'StopIteration':
+      return f'the consumer was interrupted at {fired} inside next() but its iteration ended with {t0["outcome"]}'
+    return None
+  w = result_oracle(case, t0['received'], t0['outcome'], obs.get('returned'))
+  if w is not None:
+    return w
+  # observers after the fact: further next() calls on the same iterator when everything has ended
+  post = obs.get('post') or []
+  _, fails = sequential(case)
+  end = t0['outcome']
+  k = case.get('num_steps')
+  early = k is not None and end == {'raise': 'StopIteration', 'args': []}
+  for j, pr in enumerate(post):
+    e = pr.get('end')
+    if e is not None and e['raise'] == 'would_block':
+      return f'next() #{j + 1} after the end of the iteration ({end}) would wait for ever'
+    if early:
+      continue
+    if fails and end == {'raise': 'ValueError'}:
+      if e is None or e['raise'] != 'ValueError' or pr['exc']['cls'] not in (obs.get('fault_classes') or []):
+        return (f'the iteration failed ({end}, classes {obs.get("fault_classes")}) but a later next() #{j + 1} on the same '
+                f'iterator ended with {pr}: the recorded failure was lost')
+    elif end is not None and end['raise'] == 'StopIteration':
+      if e is None or e['raise'] != 'StopIteration':
+        return f'the iteration ended cleanly but a later next() #{j + 1} ended with {pr}'
+  if fails and obs.get('fault_classes') and len(obs['fault_classes']) == 1 and end == {'raise': 'ValueError'}:
+    pass   # the class of the consumer's exception is the injected one: exc_obs maps only the injected OBJECT to 'ValueError'
+  return None
 
 
 # ------------------------------------------------------------------ generators
